@@ -1198,10 +1198,13 @@ def _reported_position(ctx: Ctx) -> None:
                 pre[tg.id] = st.value
     cells: list[ast.Subscript] = []
     for q in paths(list(loop.body), Path()):
-        for e in q.events:
-            if not isinstance(e.value, ast.AST):
+        # what a round appends: the events, and the list displays that are
+        # kept by name until they are joined
+        vals = [e.value for e in q.events] + list(q.objs.values())
+        for val in vals:
+            if not isinstance(val, ast.AST):
                 continue
-            for sb in ast.walk(e.value):
+            for sb in ast.walk(val):
                 if isinstance(sb, ast.Subscript) and isinstance(
                         sb.ctx, ast.Load) and not (isinstance(
                             sb.value, ast.Name) and sb.value.id == tagv):
